@@ -296,6 +296,8 @@ class Program:
             names = names or {n.sid: n.obj.name for n in self.nodes}
             for n in self.nodes:
                 n.obj = model.nodes[names[n.sid]]
+            for ui in list(self.var_objs):
+                self.var_objs[ui] = self.nodes[self.unit_nodes[ui]["value"]].obj.var
         # seed inputs
         for n in list(self.nodes):
             if n.needs_seed:
